@@ -293,6 +293,23 @@ def reader_product(ctx, w):
                                       {'case': {'kind': 'reader', 'function': fname, 'source': kind, 'content': tag, 'gz_layout': layout},
                                        'impl': {'got': str(got)[:600], 'reference(plain path)': str(ref)[:600]},
                                        'theorem': 'Hpv.Props.C16.same_result'})
+            # a text stream the CALLER opened with another encoding carries the same characters: same result
+            if tag == 'ascii-2' or tag == 'c':
+                latin = text.replace('Another label', 'Étiquette ü ß').replace('third', 'troisième ü').replace('OTHER', 'AUTRE é')
+                with open(os.path.join(w.sub, 'utf8' + '.' + ctype), 'w', encoding='utf-8', newline='') as fh:
+                    fh.write(latin)
+                want = outcome_of(fn, os.path.join(w.sub, 'utf8' + '.' + ctype))
+                for enc in ('latin-1', 'utf-16', 'cp1252', 'utf-8-sig'):
+                    pth = os.path.join(w.sub, 'enc-' + enc + '.' + ctype)
+                    with open(pth, 'w', encoding=enc, newline='') as fh:
+                        fh.write(latin)
+                    ctx.case(['read', fname, 'textFile:' + enc, tag], True, 'readers x caller-opened text streams in other encodings')
+                    with open(pth, 'r', encoding=enc, newline='') as src:
+                        got = outcome_of(fn, src)
+                    if got != want:
+                        ctx.violation(f'{fname}:textFile:{enc}', {'case': {'kind': 'reader', 'function': fname, 'source': f'text stream opened with encoding={enc}', 'content': tag},
+                                                                  'impl': {'got': str(got)[:500], 'reference(plain utf-8 path)': str(want)[:500]},
+                                                                  'theorem': 'Hpv.Props.C16.same_result'})
             for name, obj in w.junk():
                 ctx.case(['read', fname, name, tag], True, 'readers x junk')
                 try:
@@ -330,7 +347,7 @@ def writer_product(ctx, w):
     for fname, mk in makers.items():
         for tag, n in (('first', 3), ('second', 6), ('third', 1)):
             outputs = {}
-            for kind in ('path', 'gzPath', 'textFile', 'binaryFile'):
+            for kind in ('path', 'gzPath', 'textFile', 'binaryFile', 'gzipBinarySink', 'textFile-utf16'):
                 ctx.case(['write', fname, kind, tag], True, 'writers x kinds x contents', sample={'function': fname, 'target': kind, 'content': tag})
                 plain = os.path.join(w.sub, 'out.csv')
                 gz = os.path.join(w.sub, 'out.csv.gz')
@@ -348,11 +365,17 @@ def writer_product(ctx, w):
                     elif kind == 'textFile':
                         with open(plain, 'w', encoding='utf-8', newline='') as fh:
                             c.to_csv(fh)
+                    elif kind == 'textFile-utf16':          # the caller's text stream decides the encoding: the CHARACTERS are the same
+                        with open(plain, 'w', encoding='utf-16', newline='') as fh:
+                            c.to_csv(fh)
+                    elif kind == 'gzipBinarySink':          # an open binary stream that happens to compress (its name ends with .gz)
+                        with gzip.open(gz, 'wb') as fh:
+                            c.to_csv(fh)
                     else:
                         with open(plain, 'wb') as fh:
                             c.to_csv(fh)
-                    data = gzip.open(gz, 'rb').read() if kind == 'gzPath' else open(plain, 'rb').read()
-                    outputs[kind] = mask(data.decode('utf-8').replace('\r\n', '\n'))
+                    data = gzip.open(gz, 'rb').read() if kind in ('gzPath', 'gzipBinarySink') else open(plain, 'rb').read()
+                    outputs[kind] = mask(data.decode('utf-16' if kind == 'textFile-utf16' else 'utf-8').replace('\r\n', '\n'))
                 except Exception as e:  # noqa
                     outputs[kind] = f'raises {type(e).__name__}: {e}'
             ref = outputs['path']
